@@ -196,6 +196,8 @@ class SparseGrid(TrainingData, PickleSerializable):
                 skip_coord = False
                 yi_curr = copy.deepcopy(self.yi_map[alpha][coord])
                 output_vars = self._numeric_outputs(yi_curr)
+                if skip_nan and y_vars is not None and any(yi_curr.get(var) is None for var in y_vars):
+                    continue  # a requested quantity that was not returned at this point (failed evaluation) is missing too
                 for var in output_vars:
                     if np.any(np.isnan(yi_curr[var])):
                         yi_curr[var] = self.yi_nan_map[alpha].get(coord, yi_curr)[var]
@@ -248,13 +250,14 @@ class SparseGrid(TrainingData, PickleSerializable):
 
     def impute_missing_data(self, alpha: MultiIndex, beta: MultiIndex):
         """Impute missing values in the sparse grid for a given multi-index pair by linear regression imputation."""
-        imputer, xi_all, yi_all = None, None, None
+        imputers = {}  # one fit per set of imputed quantities (points of failed evaluations may hold fewer quantities)
         for coord, yi_dict in self.yi_map[alpha].items():
             # only impute (small-length) numeric quantities
             output_vars = [var for var in self._numeric_outputs(yi_dict)
                            if len(np.ravel(yi_dict[var])) <= self.MAX_IMPUTE_SIZE]
 
             if any([np.any(np.isnan(yi_dict[var])) for var in output_vars]):
+                imputer, yi_all = imputers.get(tuple(output_vars), (None, None))
                 if imputer is None:
                     # Grab all 'good' interpolation points and train a simple linear regression fit
                     xi_all, yi_all = self.get(alpha, beta, y_vars=output_vars, skip_nan=True)
@@ -269,6 +272,7 @@ class SparseGrid(TrainingData, PickleSerializable):
 
                     imputer = _RidgeRegression(alpha=1.0)
                     imputer.fit(xi_mat, yi_mat)
+                    imputers[tuple(output_vars)] = (imputer, yi_all)
 
                 # Run the imputer for this coordinate
                 x_interp = self._append_grid_points(coord)
